@@ -38,7 +38,8 @@ pub async fn copy_with_size<R: AsyncRead, W: AsyncWrite>(
     writer: &mut W,
     buf_size: usize,
 ) -> IoResult<u64> {
-    let mut buf = Vec::with_capacity(buf_size);
+    // (At least one byte: a zero-length read would look like EOF.)
+    let mut buf = Vec::with_capacity(buf_size.max(1));
     let mut total = 0u64;
 
     loop {
